@@ -241,14 +241,14 @@ pub fn check(case: &Case, env: &mut CaseEnv) -> Result<(), Failure> {
         env.classes(gq.labels.iter().cloned());
         // filters are judged by C03; here they only vary the filtered set. Skip shapes C03 lists as findings.
         if !crate::props::c03::kf_shape(gq, t, &case.layout).is_empty()
-            || (env.kf_active("KF-connective-null") && eval::null_reaches_connective(&gq.q.filter, &rows))
+            || (env.kf_active("KF-connective-null") && !env.replay && eval::null_reaches_connective(&gq.q.filter, &rows))
         {
             env.excluded("C03-findings-in-filter");
             continue;
         }
         let mut skip = false;
         for id in kf_shape(gq, t, &case.layout) {
-            if env.kf_active(id) {
+            if env.kf_active(id) && !env.replay {
                 env.excluded(id);
                 skip = true;
             }
